@@ -171,6 +171,19 @@ func genCrash(yield func(any)) {
 			}
 		}
 	}
+	// (e) degenerate but schema-shaped contents: every empty string, list and object a structured extension can hold,
+	// one at a time, in a certificate and in a profile, under the default flags and generate-all
+	for _, ext := range degenerateExtensions() {
+		for _, strat := range []int{9, 31} {
+			c := tinyCfg("Degenerate", "", "")
+			c["extensions"] = []J{ext}
+			yield(PkiIn{Tz: 0, Strat: strat, Files: []FileIn{certFile("root.yaml", c, true)}})
+			c2 := tinyCfg("Degenerate", "", "")
+			c2["profile"] = "p"
+			pj := must(json.Marshal(J{"version": 1, "name": "p", "extensions": []J{ext}}))
+			yield(PkiIn{Tz: 0, Strat: strat, Files: []FileIn{certFile("root.yaml", c2, true), {Path: "p.yaml", Kind: "profile", Json: pj, Text: string(pj), Age: 300}}})
+		}
+	}
 	// (d) real artifacts, partially stripped, x every strategy: produced by a first run inside the case
 	for n := 0; n < pick(200, 4000); n++ {
 		yield(PkiIn{Tz: 0, Strat: rng.Intn(32), Files: []FileIn{
@@ -180,6 +193,44 @@ func genCrash(yield func(any)) {
 			{Path: "sub.pem", Kind: "pem", Text: realPemVariant(n + 1), Age: 10 + rng.Intn(300)},
 		}})
 	}
+}
+
+// degenerateExtensions: for each structured kind, the content with one member emptied ("", [], {}, 0, absent)
+func degenerateExtensions() []J {
+	var out []J
+	add := func(kind string, content any) { out = append(out, J{kind: J{"content": content}}) }
+	add("subjectKeyIdentifier", "")
+	add("keyUsage", []string{})
+	add("subjectAlternativeName", []J{})
+	add("subjectAlternativeName", []J{{"type": "dns", "name": ""}})
+	add("subjectAlternativeName", []J{{"type": "ip", "name": ""}})
+	add("subjectAlternativeName", []J{{"type": "", "name": "x"}})
+	add("basicConstraints", J{})
+	add("certificatePolicies", []J{})
+	add("certificatePolicies", []J{{"oid": ""}})
+	add("certificatePolicies", []J{{"oid": "1.2.3", "qualifiers": []J{}}})
+	add("certificatePolicies", []J{{"oid": "1.2.3", "qualifiers": []J{{}}}})
+	add("certificatePolicies", []J{{"oid": "1.2.3", "qualifiers": []J{{"cps": ""}}}})
+	add("certificatePolicies", []J{{"oid": "1.2.3", "qualifiers": []J{{"userNotice": J{}}}}})
+	add("certificatePolicies", []J{{"oid": "1.2.3", "qualifiers": []J{{"userNotice": J{"organization": "", "numbers": []int{}, "text": ""}}}}})
+	add("certificatePolicies", []J{{"oid": "1.2.3", "qualifiers": []J{{"cps": "", "userNotice": J{"text": "t"}}}}})
+	add("authorityInformationAccess", []J{})
+	add("authorityInformationAccess", []J{{"ocsp": ""}})
+	add("authorityInformationAccess", []J{{}})
+	add("authorityKeyIdentifier", J{})
+	add("authorityKeyIdentifier", J{"id": ""})
+	add("extendedKeyUsage", []string{})
+	add("extendedKeyUsage", []string{""})
+	add("admission", J{})
+	add("admission", J{"admissions": []J{}})
+	add("admission", J{"admissions": []J{{}}})
+	add("admission", J{"admissions": []J{{"professionInfos": []J{}}}})
+	add("admission", J{"admissions": []J{{"professionInfos": []J{{}}}}})
+	add("admission", J{"admissions": []J{{"professionInfos": []J{{"professionItems": []string{}}}}}})
+	add("admission", J{"admissions": []J{{"professionInfos": []J{{"professionItems": []string{""}, "professionOids": []string{""}, "registrationNumber": "", "addProfessionInfo": ""}}}}})
+	add("admission", J{"admissionAuthority": J{}, "admissions": []J{{"admissionAuthority": J{"type": "", "name": ""}, "namingAuthority": J{}, "professionInfos": []J{{"professionItems": []string{"x"}, "namingAuthority": J{"oid": "", "url": "", "text": ""}}}}}})
+	out = append(out, J{"custom": J{"oid": "", "raw": "!empty"}}, J{"custom": J{"oid": "1.2.3"}}, J{"ocspNoCheck": J{}}, J{"keyUsage": J{}}, J{"keyUsage": J{"raw": ""}})
+	return out
 }
 
 var realPemCache []byte
